@@ -11,7 +11,7 @@ RULE = ("exact metamorphic laws of `to` over commensurable non-offset unit expre
         "x U1 to U3 to U2 = x U1 to U2; homogeneity (k*x) U1 to U2 = k*(x U1 to U2); prefix: 1 pU to U = 10^p for every accepted prefix "
         "spelling of every unit (exhaustive over the vocabulary); power: 1 U1^n to U2^n = (1 U1 to U2)^n for n in -3..3; product/quotient "
         "of up to four units converts by the product/quotient of the factors; and x U1 to U2 = x*s(U1)/s(U2) with s measured by "
-        "`1 U to <base units>`; pairs: every ordered pair of units as quotient and product converted to the base-unit spelling of its dimension. Every documented unit occurs as source and as target inside its dimension class. "
+        "`1 U to <base units>`; pairs: every ordered pair of units as quotient and product converted to the base-unit spelling of its dimension. Every documented unit occurs as source and as target inside its dimension class; provenance: every typeable shipped fact (a quantity whose unit was decoded from stored data, many in prefixed units) converted to the base-unit spelling and to a random spelling of its dimension equals its looked-up value times the scales. "
         "non-trivial = distinct conversion whose source or target is prefixed, powered or compound")
 
 def one_value(rep):
@@ -173,6 +173,42 @@ def shard(p):
             else:
                 want = x * s1 / s2
                 checks.append((law, ["%s %s to %s" % (xs, t1, t2)], (lambda vs, want=want: None if vs[0][0] == want else "is %s, the scales give %s" % (vs[0][0], want))))
+        # provenance: a quantity that was not typed in but looked up (its unit comes out of the stored data, not out of the unit
+        # parser) or computed converts like the literal of the same value and unit (seed C03-g: a field of the unit that only the
+        # constructors maintain). value and unit are taken from the phrase evaluated on its own.
+        phrases = [" ".join(f["tokens"]) for f in p.get("facts", [])]
+        if phrases:
+            try:
+                preps = d.call_many([{"op": "query", "q": ph} for ph in phrases], timeout=300)
+            except (DriverDied, DriverTimeout) as ex:
+                acc.inconc("driver: %r" % (ex,))
+                preps = []
+            for ph, rep in zip(phrases, preps):
+                v, err = one_value(rep)
+                if err or not v[1]:
+                    continue
+                try:
+                    si_v, dims = V.normalise(v[0], rep["items"][0]["ok"]["u"])
+                except Exception:
+                    continue
+                acc.count("looked_up_sources")
+                if any(pt[2] for pt in rep["items"][0]["ok"]["u"]):
+                    acc.count("looked_up_sources_stored_in_a_prefixed_unit")
+                for _k in range(2):
+                    ft = V.factors_for_dims(rng, dims) if _k else None
+                    tt = G.text(ft, rng) if ft else G.base_expr(dims)
+                    if tt is None:
+                        continue
+                    st = V.factors_si(ft)[0] if ft else F(1)
+                    form = rng.choice(["%s to %s", "(%s) to %s", "%s * 1 to %s", "1 * %s to %s", "%s to %s to %s"])
+                    if form.count("%s") == 3:
+                        f3 = V.factors_for_dims(rng, dims)
+                        if not f3:
+                            continue
+                        q = form % (ph, G.text(f3, rng), tt)
+                    else:
+                        q = form % (ph, tt)
+                    checks.append(("provenance", [q], (lambda vs, want=si_v / st: None if vs[0][0] == want else "is %s, the looked-up value and the scales give %s" % (vs[0][0], want))))
         reqs = [{"op": "query", "q": q} for _, qs, _ in checks for q in qs]
         reps = []
         for i in range(0, len(reqs), 4000):
@@ -188,7 +224,7 @@ def shard(p):
             acc.evaluations += 1
             acc.count("law_" + law)
             if law != "absolute" or any(c in qs[0] for c in "*/^") or not any(e["bare"] and (" " + e["word"] + " ") in (" " + qs[0] + " ") for e in V.entries[:0]):
-                if any(c in qs[0] for c in "*/^") or law in ("prefix", "power", "product", "pairs"):
+                if any(c in qs[0] for c in "*/^") or law in ("prefix", "power", "product", "pairs", "provenance"):
                     acc.nontriv(qs[0])
             vals, bad = [], None
             for q, r in zip(qs, rs):
@@ -214,7 +250,11 @@ def run(tier, seed):
     t0 = time.time()
     bins = {k: build.build(k)["vdriver"] for k in ("dbg", "rel")}
     n = 36000 if tier == "quick" else 500000
-    payloads = [{"seed": seed, "shard": i, "nshards": NCPU, "n": n // NCPU, "bin": bins["dbg"], "kind": "dbg", "thorough": tier == "thorough"} for i in range(NCPU)]
+    from core import facts as FX
+    with Driver(bins["dbg"]) as d0:
+        facts, _ = FX.load(d0)
+    ty = [{"tokens": f["tokens"]} for f in facts if FX.typeable(f["tokens"])]
+    payloads = [{"seed": seed, "shard": i, "nshards": NCPU, "facts": ty[i::NCPU], "n": n // NCPU, "bin": bins["dbg"], "kind": "dbg", "thorough": tier == "thorough"} for i in range(NCPU)]
     payloads += [{"seed": seed, "shard": 100 + i, "nshards": NCPU, "n": n // NCPU // 5, "bin": bins["rel"], "kind": "rel",
                   "env": {"RUST_LOG": "anything=trace"} if i % 2 else None} for i in range(NCPU)]     # release build: both tiers; every other shard with trace logging enabled
     acc = run_shards(shard, payloads)
